@@ -173,6 +173,14 @@ class RaceDetected(Exception):
     pass
 
 
+class ProducerCrash(Exception):
+    """The producer process died (fatal runtime error, signal): carries what is needed to decide whether that is a
+    reproducible fact about the library (VIOLATION) or not (inconclusive)."""
+    def __init__(self, rc, args, stderr, inflight):
+        Exception.__init__(self, 'producer crashed rc=%s: %s\n%s' % (rc, ' '.join(args), stderr[-2500:]))
+        self.rc, self.args_, self.stderr, self.inflight = rc, args, stderr, inflight
+
+
 def produce(d, shard, producer_args, race=False, env_extra=None):
     """Runs one producer (drive/replay/...) writing trace-<shard>.ndjson; returns (trace path, cover dict)."""
     binp, _ = build_harness(race=race)
@@ -187,9 +195,14 @@ def produce(d, shard, producer_args, race=False, env_extra=None):
     if rc == 66 and 'DATA RACE' in se:
         raise RaceDetected(se[-6000:])
     if rc != 0:
-        # a crash of the driver process is itself an observation (e.g. a fatal runtime error caused by
-        # memory corruption inside the library); keep what was written and report it as inconclusive
-        raise Inconclusive('producer crashed rc=%s: %s\n%s' % (rc, ' '.join(args), se[-2500:]))
+        # a crash of the driver process is itself an observation (e.g. a fatal runtime error caused by memory corruption
+        # inside the library): the caller re-runs the trace that was in flight to see whether it is reproducible
+        infl = None
+        try:
+            infl = json.loads(open(tr + '.inflight').read().strip())
+        except Exception:
+            pass
+        raise ProducerCrash(rc, args, se, infl)
     cover = json.load(open(cov)) if os.path.exists(cov) else {}
     return tr, cover
 
